@@ -73,6 +73,8 @@ struct NvResult
   uint32_t low, high;
   int endian, bpa, cpu_index;
   int instruction_count, code_count, data_count;
+  // first address whose Memory::read8() (the accessor every output writer uses) differs from the stored byte, or -1
+  long long read8_bad;
 };
 
 // Two-pass assembly of a NUL-free source text, following main/naken_asm.cpp.
